@@ -16,7 +16,10 @@ Oracle (property relation evaluated on the implementation itself, independent nu
     every draw starts from the previous draw's returned chain states by value, zero-step draws return them unchanged
     and (torch.bernoulli wrapped) the first Gibbs conditional of each draw is the one computed from them; the caller's
     initial chains are untouched unless overwrite, and then hold the final chain states;
-  * System gives each observable the dictionary it gets alone on the same chain states.
+  * System gives each observable the dictionary it gets alone on the same chain states;
+  * every field (mean, variance, std_error, num_samples) of every returned dictionary is compared separately, for each entry point
+    (statistics, statistics_from_samples, System.statistics, System.statistics_from_samples) and each observable kind: plain,
+    sums, and products with negative / zero / fractional (dyadic and not) / large scalars (SCALED_KEYS); std_error is never negative.
 A leading sample(k=0, initial_state=None) call whose result only seeds the next call is chain initialisation, not a
 draw (split_init_call); all relations above are required on the draws."""
 import inspect
@@ -49,6 +52,11 @@ RULE = ("(a) merge: random data sets of n = 1..8 values (normal / integer-valued
         "buffer (every second row / column, transposed, offset) with overwrite on/off; states carrying what earlier public "
         "operations leave behind (stop_training set directly or by a fit that a callback stopped, a completed fit; the flag "
         "changing between the calls of a history); burn_in / steps of 1000..6000 Gibbs steps (at and next to 1024/2048/4096). "
+        "products whose scalar is negative (unary minus, negative int / float on either side, multiples of negated observables, "
+        "minus of minus / of a sum), zero (0, -0.0), fractional (0.25, 0.1, 0.3, -1/3) or large (1e6, 1234567.891), and sums containing "
+        "them, are members of the rotating observable list, run fixed-first through statistics() alone / in Systems / with initial "
+        "chains / in histories, and statistics_from_samples + System.statistics_from_samples run on EVERY observable of the list for "
+        "every state kind with 1, 2, 9 and random numbers of rows; all four fields of every dictionary are compared one by one. "
         "call forms rotate over keyword / positional / all-keyword, plus calls relying on the signature defaults "
         "(num_chains, burn_in, steps); torch.bernoulli is wrapped during every run to tie each draw's first Gibbs "
         "conditional to the chain states it starts from. "
@@ -70,6 +78,14 @@ OBS_KEYS = ["Z", "X", "Y", "absZ", "NN", "NNp", "2Z-X", "mix",
             # its neighbour), region given as list / int / two sites; composites whose leaves SHARE a name but differ in
             # configuration (SigmaZ vs SigmaZ(absolute=True), SWAP of different regions)
             "SWAP0", "SWAP1", "SWAP01", "2Z+1", "3absZ", "SWAP0-1", "hSWAP1", "Z+absZ", "SWAP0+SWAP1"]
+# composites whose OUTERMOST node is a product, by sign / size of the scalar: negative (unary minus, negative int / float on
+# either side, a positive multiple of a negated observable, minus of minus, minus of a sum), zero (0, -0.0), fractional
+# (dyadic and non-dyadic), large; and sums that contain such products.  Every one of them goes through statistics(),
+# statistics_from_samples() and both System entry points, and every field of every returned dictionary is compared.
+SCALED_KEYS = ["-Z", "-1.5X", "2(-NN)", "NN*-3", "-(-Z)", "-(Z+X)", "-(2Z-X)", "-SWAP0", "-absZ", "-2.5(-0.5Y)", "-0.1Y", "-NN/3",
+               "0Z", "-0.0X", "0(-NN)", "0.25NNp", "0.1Y", "X*0.3", "1e6Z", "-1e6X", "1234567.891NN", "3-Z", "X-2.5NN", "1-(-Z)"]
+NEGATIVE_KEYS = SCALED_KEYS[:12]
+OBS_KEYS = OBS_KEYS + SCALED_KEYS
 LAYOUTS = ["contiguous", "rows2", "cols2", "transposed", "offset"]
 PAIRS16 = [(b, s) for b in range(4) for s in range(4)]
 
@@ -114,6 +130,19 @@ def make_obs(key):
         return SigmaZ() + SigmaZ(absolute=True)
     if key == "SWAP0+SWAP1":
         return SWAP([0]) + SWAP([1])
+    NN = NeighbourInteraction
+    scaled = {
+        "-Z": lambda: -SigmaZ(), "-1.5X": lambda: -1.5 * SigmaX(), "2(-NN)": lambda: 2 * (-NN()), "NN*-3": lambda: NN() * -3,
+        "-(-Z)": lambda: -(-SigmaZ()), "-(Z+X)": lambda: -(SigmaZ() + SigmaX()), "-(2Z-X)": lambda: -(2 * SigmaZ() - SigmaX()),
+        "-SWAP0": lambda: -SWAP([0]), "-absZ": lambda: -SigmaZ(absolute=True), "-2.5(-0.5Y)": lambda: -2.5 * (-0.5 * SigmaY()),
+        "-0.1Y": lambda: -0.1 * SigmaY(), "-NN/3": lambda: NN() * (-1.0 / 3.0),
+        "0Z": lambda: 0 * SigmaZ(), "-0.0X": lambda: -0.0 * SigmaX(), "0(-NN)": lambda: 0.0 * (-NN()),
+        "0.25NNp": lambda: 0.25 * NN(periodic_bcs=True, c=1), "0.1Y": lambda: 0.1 * SigmaY(), "X*0.3": lambda: SigmaX() * 0.3,
+        "1e6Z": lambda: 1e6 * SigmaZ(), "-1e6X": lambda: -1e6 * SigmaX(), "1234567.891NN": lambda: 1234567.891 * NN(),
+        "3-Z": lambda: 3 - SigmaZ(), "X-2.5NN": lambda: SigmaX() - 2.5 * NN(), "1-(-Z)": lambda: 1 - (-SigmaZ()),
+    }
+    if key in scaled:
+        return scaled[key]()
     raise ValueError(key)
 
 
@@ -546,6 +575,7 @@ def check_result(ctx, case, what, res, vals, S, chains, draws):
                 {"impl": float(res["variance"]), "one_pass": rv, "values": allv if len(allv) <= 40 else len(allv)})
     ctx.require(what + ": std_error == sqrt(variance / count)", near(res["std_error"], rse, scale), case,
                 {"impl": float(res["std_error"]), "one_pass": rse})
+    ctx.require(what + ": std_error is not negative", not (float(res["std_error"]) < 0), case, {"impl": float(res["std_error"])})
     if n >= 2:
         ctx.require(what + ": variance is a definite value when the total count is >= 2",
                     not math.isnan(float(res["variance"])) and not math.isnan(float(res["std_error"])), case)
@@ -762,41 +792,71 @@ def one_statistics_call(ctx, case, spec, call_index, state, is_system, keys, obs
     return calls[-1]["ret"]
 
 
-def from_samples_case(ctx, state, sspec, key, rows):
+FIELDS = ("mean", "variance", "std_error", "num_samples")
+
+
+def check_fields(ctx, case, what, rr, vals, extra=None):
+    """EVERY field of one returned dictionary against the independent one-pass statistics of the observable values `vals`
+    (one requirement per field, so the failing relation names the field); the standard error is never negative."""
+    rm, rv, rse, rn = one_pass(vals)
+    scale = max([1.0] + [abs(x) for x in vals])
+    detail = dict(extra or {})
+    missing = [k for k in FIELDS if not (hasattr(rr, "keys") and k in rr.keys())]
+    if not ctx.require(what + ": the dictionary reports mean, variance, std_error and num_samples", not missing, case,
+                       dict(detail, missing=missing)):
+        return False
+    detail.update({"impl": {k: float(rr[k]) for k in FIELDS}, "one_pass": {"mean": rm, "variance": rv, "std_error": rse, "num_samples": rn},
+                   "values": vals if len(vals) <= 40 else len(vals)})
+    ok = ctx.require(what + ": num_samples == number of sample rows", rr["num_samples"] == rn, case, detail)
+    ok &= ctx.require(what + ": mean == one-pass mean of the observable values", near(rr["mean"], rm, scale), case, detail)
+    ok &= ctx.require(what + ": variance == one-pass unbiased variance of the observable values",
+                      near(rr["variance"], rv, scale * scale), case, detail)
+    ok &= ctx.require(what + ": std_error == sqrt(one-pass variance / count)", near(rr["std_error"], rse, scale), case, detail)
+    ok &= ctx.require(what + ": std_error is not negative", not (float(rr["std_error"]) < 0), case, detail)
+    return bool(ok)
+
+
+def from_samples_case(ctx, state, sspec, key, rows, samples=None, model=True):
+    """ObservableBase.statistics_from_samples and System(o).statistics_from_samples of ONE observable on given rows: each
+    returned dictionary, field by field, against the one-pass statistics of o.apply on the same rows"""
     import torch
     from qucumber.observables import System
     m = ctx.get_model()
     o = make_obs(key)
-    samples = torch.tensor(ctx.rng.integers(0, 2, size=(rows, sspec["nv"])).astype(float), dtype=torch.double)
+    if samples is None:
+        samples = torch.tensor(ctx.rng.integers(0, 2, size=(rows, sspec["nv"])).astype(float), dtype=torch.double)
+    else:
+        samples = torch.tensor(samples, dtype=torch.double)
     case = {"part": "from_samples", "state": sspec, "obs": key, "rows": rows,
             "samples": samples.tolist() if rows <= 64 else "random 0/1 rows (%d)" % rows}
     ctx.case({"part": "from_samples", "state": sspec["kind"], "obs": key, "rows": rows, "s0": samples[:8].tolist()}, nontrivial=rows >= 2)
     ctx.count("from_samples:rows" + ("<=64" if rows <= 64 else ">1000"))
-    ok, r = ctx.call("statistics_from_samples", case, o.statistics_from_samples, state, samples.clone())
-    if not ok:
-        return
+    ctx.count("from_samples:obs:" + key)
     vals = [float(x) for x in o.apply(state, samples.clone()).reshape(-1).tolist()]
-    rm, rv, rse, rn = one_pass(vals)
-    scale = max([1.0] + [abs(x) for x in vals])
-    ctx.require("statistics_from_samples == one-pass statistics of the observable values",
-                near(r["mean"], rm, scale) and near(r["variance"], rv, scale * scale) and near(r["std_error"], rse, scale)
-                and r["num_samples"] == rn, case, {"impl": {k: float(v) for k, v in r.items()}, "one_pass": [rm, rv, rse, rn]})
-    ctx.agree("statistics_from_samples vs model", [r["mean"], r["variance"], r["std_error"], r["num_samples"]],
-              m.call("c13_from_samples", vals), case)
+    ok, r = ctx.call("statistics_from_samples", case, o.statistics_from_samples, state, samples.clone())
+    if ok and check_fields(ctx, case, "statistics_from_samples", r, vals, {"observable": o.name}) and model:
+        ctx.agree("statistics_from_samples vs model", [r["mean"], r["variance"], r["std_error"], r["num_samples"]],
+                  m.call("c13_from_samples", vals), case, scale=max([1.0] + [x * x for x in vals]))
     ok, rs = ctx.call("System.statistics_from_samples", case, System(o).statistics_from_samples, state, samples.clone())
     if ok:
-        rr = rs[o.name]
-        ctx.require("System.statistics_from_samples == the observable's own",
-                    all(near(rr[k], r[k]) for k in ("mean", "variance", "std_error")) and rr["num_samples"] == r["num_samples"], case)
+        good = isinstance(rs, dict) and set(rs.keys()) == {o.name}
+        ctx.require("System.statistics_from_samples returns exactly one dictionary per observable", good, case,
+                    {"keys": sorted(map(str, rs.keys())) if isinstance(rs, dict) else repr(type(rs))})
+        if good:
+            check_fields(ctx, case, "System.statistics_from_samples[one observable]", rs[o.name], vals, {"observable": o.name})
+    ctx.traces += 1
 
 
-def from_samples_system_case(ctx, state, sspec, keys, rows):
+def from_samples_system_case(ctx, state, sspec, keys, rows, samples=None):
     """System.statistics_from_samples on a set of observables: each gets what it gets alone on the same rows"""
     import torch
     from qucumber.observables import System
     keys = distinct_names(keys)
     obs = [make_obs(k) for k in keys]
-    samples = torch.tensor(ctx.rng.integers(0, 2, size=(rows, sspec["nv"])).astype(float), dtype=torch.double)
+    if samples is None:
+        samples = torch.tensor(ctx.rng.integers(0, 2, size=(rows, sspec["nv"])).astype(float), dtype=torch.double)
+    else:
+        samples = torch.tensor(samples, dtype=torch.double)
     case = {"part": "from_samples_system", "state": sspec, "obs_list": keys, "rows": rows, "samples": samples.tolist()}
     ctx.case({"part": "from_samples_system", "state": sspec["kind"], "obs": keys, "rows": rows, "s0": samples[:8].tolist()},
              nontrivial=rows >= 2 and len(keys) >= 2)
@@ -804,19 +864,31 @@ def from_samples_system_case(ctx, state, sspec, keys, rows):
     ok, rs = ctx.call("System.statistics_from_samples", case, System(*obs).statistics_from_samples, state, samples.clone())
     if not ok:
         return
-    ctx.require("System.statistics_from_samples returns exactly one dictionary per observable",
-                isinstance(rs, dict) and set(rs.keys()) == set(o.name for o in obs), case)
-    for o in obs:
+    good = isinstance(rs, dict) and set(rs.keys()) == set(o.name for o in obs)
+    ctx.require("System.statistics_from_samples returns exactly one dictionary per observable", good, case,
+                {"keys": sorted(map(str, rs.keys())) if isinstance(rs, dict) else repr(type(rs))})
+    if not good:
+        return
+    for k, o in zip(keys, obs):
+        ctx.count("from_samples_system:obs:" + k)
         vals = [float(x) for x in o.apply(state, samples.clone()).reshape(-1).tolist()]
-        rm, rv, rse, rn = one_pass(vals)
-        scale = max([1.0] + [abs(x) for x in vals])
-        rr = rs.get(o.name) if isinstance(rs, dict) else None
-        good = rr is not None and near(rr["mean"], rm, scale) and near(rr["variance"], rv, scale * scale) \
-            and near(rr["std_error"], rse, scale) and rr["num_samples"] == rn
-        ctx.require("System.statistics_from_samples gives each observable the one-pass statistics of its own values", good, case,
-                    {"observable": o.name, "system": None if rr is None else {k: float(v) for k, v in rr.items()},
-                     "one_pass": [rm, rv, rse, rn]})
+        check_fields(ctx, case, "System.statistics_from_samples gives each observable the one-pass statistics of its own values",
+                     rs[o.name], vals, {"observable": o.name, "key": k})
     ctx.traces += 1
+
+
+def from_samples_all_keys(ctx, states, row_counts, model_every=1):
+    """statistics_from_samples (alone and through System) of EVERY observable of OBS_KEYS -- plain, sums, products with
+    negative / zero / fractional / large scalars -- on every state kind, for the given numbers of rows; then Systems made
+    of the scaled composites together with plain observables"""
+    n = 0
+    for st, sspec in states:
+        for key in OBS_KEYS:
+            for rows in row_counts:
+                n += 1
+                from_samples_case(ctx, st, sspec, key, rows, model=(n % model_every == 0))
+        for j in range(0, len(SCALED_KEYS), 6):
+            from_samples_system_case(ctx, st, sspec, SCALED_KEYS[j:j + 6] + ["Z", "X", "NN"], row_counts[-1] + j)
 
 
 def make_states(ctx, copies):
@@ -948,6 +1020,7 @@ def run_statistics(ctx, Smax, sweeps, deadline=None):
             spec["obs"] = str(ctx.rng.choice(["Z", "NN", "absZ"]))
         stat_case(ctx, spec, st)
     # statistics_from_samples directly (1 row: nan variance)
+    from_samples_all_keys(ctx, states, (int(ctx.rng.integers(2, 5)), int(ctx.rng.integers(5, 40))), model_every=1 if ctx.thorough else 4)
     for i, (st, sspec) in enumerate(states):
         for rows in (1, 2, 3, 7):
             from_samples_case(ctx, st, sspec, OBS_KEYS[(i + rows) % len(OBS_KEYS)], rows)
@@ -1058,8 +1131,27 @@ def run_fixed(ctx):
         (sc, spec("statistics", sc_spec, "X", 7, 0, 2, 1, init=rand_init(ctx, 2, sc_spec["nv"]), ow=False, dtype="int64")),
         (sd, spec("system", sd_spec, ["Z", "NN"], 8, 0, 1, 2, init=rand_init(ctx, 3, sd_spec["nv"]), ow=True, dtype="uint8")),
     ]
-    for st, sp_ in few + big:
+    # products with negative / zero / fractional / large scalars through the streaming entry points (alone, in Systems,
+    # with initial chains, in a history); every field of every dictionary is compared in check_result
+    scaled = [
+        (sp, spec("statistics", sp_spec, "-Z", 12, 4, 2, 1)),
+        (sc, spec("statistics", sc_spec, "-1.5X", 10, 4, 1, 1, form="positional")),
+        (sd, spec("statistics", sd_spec, "2(-NN)", 7, 0, 1, 0)),
+        (sp, spec("statistics", sp_spec, "NN*-3", 5, 9, 0, 1)),
+        (sc, spec("statistics", sc_spec, "-(Z+X)", 6, 1, 1, 1, then=[{}])),
+        (sd, spec("statistics", sd_spec, "-2.5(-0.5Y)", 8, 3, 1, 2, init=ri(sd_spec, 3), ow=True)),
+        (sp, spec("statistics", sp_spec, "0Z", 6, 3, 1, 1)),
+        (sc, spec("statistics", sc_spec, "-1e6X", 9, 3, 2, 1)),
+        (sd, spec("statistics", sd_spec, "-0.1Y", 6, 2, 1, 1, form="defaults")),
+        (sp, spec("system", sp_spec, ["-Z", "NN*-3", "0.25NNp", "X"], 12, 4, 2, 1)),
+        (sc, spec("system", sc_spec, ["-1.5X", "-(2Z-X)", "0Z", "1e6Z", "Z"], 10, 3, 1, 1, form="positional")),
+        (sd, spec("system", sd_spec, ["-2.5(-0.5Y)", "2(-NN)", "-0.0X", "3-Z"], 8, 0, 1, 1, init=ri(sd_spec, 4), ow=True)),
+        (sp, spec("system", sp_spec, ["-SWAP0", "-absZ", "1234567.891NN", "-NN/3"], 8, 4, 2, 1, then=[{}])),
+    ]
+    for st, sp_ in few + scaled + big:
         stat_case(ctx, sp_, st)
+    # statistics_from_samples, alone and through System, of EVERY observable kind on every state kind (1 row: nan variance)
+    from_samples_all_keys(ctx, states, (1, 2, 9), model_every=3)
     for st, sspec, key, rows in ((sp, sp_spec, "Z", 4097), (sc, sc_spec, "Z", 5000), (sd, sd_spec, "NN", 8193),
                                  (sp, sp_spec, "Z", 20000), (sc, sc_spec, "X", 5000)):
         from_samples_case(ctx, st, sspec, key, rows)
@@ -1129,5 +1221,9 @@ def replay(ctx, rec):
         stat_case(ctx, case)
     elif part == "merge-edge":
         merge_edge_cases(ctx)
+    elif part == "from_samples" and isinstance(case.get("samples"), list):
+        from_samples_case(ctx, build_state(case["state"]), case["state"], case["obs"], case["rows"], samples=case["samples"])
+    elif part == "from_samples_system" and isinstance(case.get("samples"), list):
+        from_samples_system_case(ctx, build_state(case["state"]), case["state"], case["obs_list"], case["rows"], samples=case["samples"])
     else:
         run(ctx)
